@@ -278,6 +278,16 @@ pub fn core_family(tier: Tier) -> Vec<(Sc, Vec<Bounds>)> {
 				l3.push(v);
 			}
 			out.extend(expand(l3, both(1)));
+			// "Start + three more operations" over the operations that end a run without a
+			// graceful period (state left behind by one of them must not leak into the
+			// handling of the next ones), default schedule
+			let mut l4 = vec![];
+			for s in seqs(&[Op::Start, Op::Stop, Op::SigKill, Op::TryRestart, Op::ContinueRaw], 3) {
+				let mut v = vec![Op::Start];
+				v.extend(s);
+				l4.push(v);
+			}
+			out.extend(expand(l4, both(0)));
 		}
 		Tier::Thorough => {
 			out.extend(expand(scripts_core(&CORE, 3), [both(0), both(1), both(2)].concat()));
@@ -292,6 +302,13 @@ pub fn core_family(tier: Tier) -> Vec<(Sc, Vec<Bounds>)> {
 				l4.push(v);
 			}
 			out.extend(expand(l4, [both(0), both(1)].concat()));
+			let mut l5 = vec![];
+			for s in seqs(&[Op::Start, Op::Stop, Op::SigKill, Op::TryRestart, Op::ContinueRaw, Op::Restart], 4) {
+				let mut v = vec![Op::Start];
+				v.extend(s);
+				l5.push(v);
+			}
+			out.extend(expand(l5, both(0)));
 		}
 	}
 	out
